@@ -4,7 +4,9 @@
  *   hist  : decimal digits, one per step (first step must be 1): 1 DOFACT 2 SamePattern 3 SamePattern_SameRowPerm 4 FACTORED
  *   trans : decimal digits per step: 1 NOTRANS 2 TRANS 3 CONJ (missing digits -> last given)
  *   equil : 0 NO 1 YES;  refine: 0 NOREFINE 1 SLU_SINGLE 2 SLU_DOUBLE;  cond/growth: 0/1
- *   lworkmode: 0 library allocation; -1 size query (first step only)
+ *   lworkmode: 0 library allocation; -1 size query (first step only); > 0 one caller workspace of that many bytes for every step of the history (hist digits 1, 3, 4 only)
+ *   scalemode: bit2 (4): at every step after the first the concrete entry (n-1, 0) is 64 times larger, so a remembered diagonal pivot of column 0 fails the threshold test and the
+ *              row order changes (with the L-shaped pattern the factors then fill completely: storage adopted from the previous factorization has to grow during the refactorization)
  *   scalemode: 0 generic concrete values; bit0 rows / bit1 columns of the concrete part badly scaled (forces equed R / C / B when Equil = YES) */
 #include "hcommon.h"
 #define MAXSTEP 4
@@ -43,6 +45,7 @@ int main(int argc, char **argv) {
   else F(Create_CompRow_Matrix)(&A, n, n, S.nnz, S.val, S.rowind, S.colptr, SLU_NR, SLU_DT, SLU_GE);
   F(Create_Dense_Matrix)(&B, n, nrhs, b, ldb, SLU_DN, SLU_DT, SLU_GE); F(Create_Dense_Matrix)(&X, n, nrhs, x, ldx, SLU_DN, SLU_DT, SLU_GE);
   StatInit(&stat);
+  void *work = lworkmode > 0 ? slusym_workspace(lworkmode, 0) : NULL;
   long mark = slusym_heap_mark(); int haveLU = 0; char nm[40];
   static elem_t Lsnap[NMAX * NMAX * 2], Usnap[NMAX * NMAX * 2]; int psnap_r[NMAX], psnap_c[NMAX], esnap[NMAX];
 
@@ -56,7 +59,7 @@ int main(int argc, char **argv) {
 #if IS_COMPLEX
             else S.val[k] = e_make(h_concrete_value(i, j, n) + (real_t)step / 8, h_concrete_value(j, i, n) / 4);
 #else
-            else S.val[k] = h_concrete_value(i, j, n) + (real_t)step / 8;
+            else S.val[k] = (h_concrete_value(i, j, n) + (real_t)step / 8) * (real_t)(((h_scalemode & 4) && i == n - 1 && j == 0) ? 64 : 1);
 #endif
             k++; }
     }
@@ -67,8 +70,8 @@ int main(int argc, char **argv) {
     char equed_in = equed; real_t Rin[NMAX], Cin[NMAX]; for (int i = 0; i < n; i++) { Rin[i] = R[i]; Cin[i] = C[i]; }
     if (f == 4 && haveLU) { SCformat *Ls = (SCformat *)L.Store; NCformat *Us = (NCformat *)U.Store; for (int_t k = 0; k < Ls->nzval_colptr[n]; k++) Lsnap[k] = ((elem_t *)Ls->nzval)[k]; for (int_t k = 0; k < Us->colptr[n]; k++) Usnap[k] = ((elem_t *)Us->nzval)[k];
       for (int i = 0; i < n; i++) { psnap_r[i] = perm_r[i]; psnap_c[i] = perm_c[i]; esnap[i] = etree[i]; } }
-    int_t info = -12345; int lwork = (lworkmode == -1 && step == 0) ? -1 : 0;
-    F(gssvx)(&opt, &A, perm_c, perm_r, etree, &equed, R, C, &L, &U, NULL, lwork, &B, &X, &rpg, &rcond, ferr, berr, &Glu, &mu, &stat, &info);
+    int_t info = -12345; int lwork = (lworkmode == -1 && step == 0) ? -1 : lworkmode > 0 ? lworkmode : 0;
+    F(gssvx)(&opt, &A, perm_c, perm_r, etree, &equed, R, C, &L, &U, work, lwork, &B, &X, &rpg, &rcond, ferr, berr, &Glu, &mu, &stat, &info);
     snprintf(nm, sizeof nm, "info%d", step); slusym_note(nm, (long)info); if (step == nsteps - 1) slusym_note("info", (long)info);
     snprintf(nm, sizeof nm, "equed%d", step); slusym_note(nm, (long)equed);
 
@@ -80,12 +83,14 @@ int main(int argc, char **argv) {
       slusym_assert_true(ps && equed == 'N', "C08.query.other-arguments.untouched");
       break;
     }
+    if (lworkmode > 0) { slusym_workspace_check("C08.workspace.nothing-written-outside"); if (info > n + 1) { slusym_note("shortage", 1); if (haveLU) { Destroy_SuperMatrix_Store(&L); Destroy_SuperMatrix_Store(&U); } haveLU = 0; break; } }
     slusym_assert_true(info >= 0 && info <= n + 1, "C05.info.range");
     int rowequ = equed == 'R' || equed == 'B', colequ = equed == 'C' || equed == 'B';
     slusym_assert_true(equed == 'N' || equed == 'R' || equed == 'C' || equed == 'B', "C05.equed.letter");
     if (!equil && f != 4) slusym_assert_true(equed == 'N', "C05.noequil.equed=N");
     if (f == 4) slusym_assert_true(equed == equed_in, "C06.factored.equed.kept");
     if (f != 4 && info >= 0 && info <= n + 1) haveLU = 1;
+    if (f != 4 && haveLU) { snprintf(nm, sizeof nm, "nnzLU%d", step); slusym_note(nm, (long)(((SCformat *)L.Store)->nnz + ((NCformat *)U.Store)->nnz)); snprintf(nm, sizeof nm, "expansions%d", step); slusym_note(nm, (long)stat.expansions); }
     /* A on exit = diag(R)^rowequ * A_in * diag(C)^colequ for a fresh factorization with equilibration; untouched otherwise */
     { int_t k = 0; for (int j = 0; j < n; j++) for (int i = 0; i < n; i++) if (S.D.nz[i][j]) { elem_t v0 = Aval0[step][k];
           if (f == 4 || (!rowequ && !colequ)) e_assert_same(S.val[k], v0, "C05.A.unchanged-when-not-scaled");
@@ -150,7 +155,7 @@ int main(int argc, char **argv) {
       for (int i = 0; i < n; i++) if (psnap_r[i] != perm_r[i] || psnap_c[i] != perm_c[i] || esnap[i] != etree[i]) same = 0;
       slusym_assert_true(same, "C06.resolve.never-alters-factors"); }
   }
-  if (haveLU) { Destroy_SuperNode_Matrix(&L); Destroy_CompCol_Matrix(&U); }
+  if (haveLU) { if (lworkmode > 0) { Destroy_SuperMatrix_Store(&L); Destroy_SuperMatrix_Store(&U); } else { Destroy_SuperNode_Matrix(&L); Destroy_CompCol_Matrix(&U); } }
   slusym_heap_assert_clean(mark, "C19.gssvx.no-leak");
   StatFree(&stat);
   slusym_done();
